@@ -155,6 +155,19 @@ CLAIMS = {
              "lifted eigenvectors exhaust the tiled spectrum) is standard character orthogonality and is not proved; the full multiset equality is decided numerically. The "
              "analysis helpers are decided on the implementation (cells with an odd number of sites are excluded: 'lower half' undefined).",
         ref="§7 C08"),
+    "C15": dict(
+        technique="Lean 4 proof (soundness of a flow-insensitive effect IR; history independence by induction over call sequences) + translator regenerating one kernel-checked obligation per koala function + fingerprint correspondence",
+        text="Kernel-checked: if check(prog, pt, allowed) holds then along every finite sequence of atoms drawn from the program (every path through branches, loops, early returns, "
+             "exceptions) every parameter region outside `allowed` keeps its version — nothing reachable from an argument is written; a program without global-RNG atoms leaves the "
+             "global random state untouched; for any sequence of argument-preserving, argument-determined operations on shared objects every result equals the result on the initial "
+             "arguments (cache part: C02). The effect program and points-to certificate of every function of koala (118 functions, ~5100 atoms) are regenerated from the working tree on "
+             "every run and each obligation is re-checked by `decide +kernel` (public functions: allowed = 0; constructors may initialise self; private helpers may update exactly what "
+             "their checked summary says). Random call sequences (length 1..30, 60 public calls of lattice, graph_utils, graph_color, flux_finder, pathfinding, hamiltonian, phase_space, "
+             "chern_number, voronization, example_graphs, plotting) on shared lattices/arrays compare byte fingerprints of every argument before/after each call, run a second time with "
+             "read-only arrays, and compare every prefix result with a fresh evaluation.",
+        note="Trusted: Lean kernel/standard axioms; the translator's SSA construction, callee summaries and its numpy view/copy/mutator classification table (validated by the dynamic "
+             "passes); harness. Positions shared by reference between derived lattices are allowed by the property and visible in the IR as aliases.",
+        ref="§7 C15"),
 }
 
 PENDING_REASON = "check not built yet in this revision (work in progress; see DESIGN.md §7 for the planned Lean model and tie)"
